@@ -101,6 +101,50 @@ func TestVerifC02Shapes(t *testing.T) {
 			}
 		}
 	}
+	// rename pairs: names inside func-typed parameters, locals and results
+	for pi, pr := range progfam.RenamePairs {
+		for _, pol := range pols {
+			n++
+			if !vh.Mine(n) {
+				continue
+			}
+			load := func(tag, src string) (map[string][2]string, error) {
+				text := progfam.RenderPair(src)
+				path := filepath.Join(scratch, fmt.Sprintf("pair%d_%s_%s.go", pi, tag, pol.n))
+				os.WriteFile(path, []byte(text), 0o644)
+				res, err := FingerprintSource(path, text, pol.p)
+				if err != nil {
+					return nil, err
+				}
+				out := map[string][2]string{}
+				for _, x := range res {
+					out[ShortFuncName(x.FunctionName)] = [2]string{x.Fingerprint, x.CanonicalIR}
+				}
+				return out, nil
+			}
+			a, err1 := load("A", pr.A)
+			b, err2 := load("B", pr.B)
+			if err1 != nil || err2 != nil {
+				r.Fail("rename pair %s does not load: %v %v", pr.ID, err1, err2)
+				return
+			}
+			r.Eval()
+			r.Nontrivial("pair/" + pr.ID + "/" + pol.n)
+			var keys []string
+			for k := range a {
+				keys = append(keys, k)
+			}
+			sort.Strings(keys)
+			for _, k := range keys {
+				if k == "init" {
+					continue
+				}
+				if a[k][0] != b[k][0] {
+					r.Violate("pair/"+pr.ID+"/"+k+"/"+pol.n, fmt.Sprintf("%s: renaming names inside func types changes the fingerprint of %s under the %s policy.\n--- IR (A) ---\n%s\n--- IR (B) ---\n%s", pr.ID, k, pol.n, a[k][1], b[k][1]), map[string]interface{}{"pair": pr.ID})
+				}
+			}
+		}
+	}
 	r.Count("shapes", int64(len(progfam.SelfShapes)))
 	r.Count("names", int64(len(progfam.SelfNames)))
 }
